@@ -388,7 +388,7 @@ PROPS["C13"] = dict(
           "msgpack/type-significant values, bit flips, truncation at any offset, extension up to 70000 bytes, splicing two messages, nesting compound/compress "
           "up to depth 40, 1/2/4-byte length fields set to extremes, unconstrained byte strings; streams are closed or left stalled by the sender; "
           "(b) exhaustive sweep: truncation and 6 substitutions at every byte position (quick: every third) of every genuine plaintext <= 400 bytes, plain and encrypted, plus every outer-layer cut point of every stream with the sender stalled; (c) declared sizes beyond the caps (node count, user state, user message, encrypted frame length; also negative) followed by up to 1 MiB of "
-          "data; a 40 MiB+ decompression bomb as packet and stream; 0-300 stalled concurrent push/pulls; floods beyond HandoffQueueDepth while the handler is "
+          "data; a 40 MiB+ decompression bomb as packet and stream; 0-300 stalled concurrent push/pulls; 1-300 push/pull exchanges cut one after the other (after the type byte, inside the header, before the rows, or with the reply never read), after which an honest exchange must be served; floods beyond HandoffQueueDepth while the handler is "
           "blocked. Oracle: the process survives and no single delivery makes it allocate more than 512 MiB (every case is journalled first; a crash of the binary is attributed to it), every stream is closed by the node "
           "within its TCP timeout, afterwards the node answers a state dump and a ping, records/events/delegate payloads change only if some prefix-tolerant "
           "parse of a plaintext candidate names them, over-cap declarations consume at most the declaration plus two read buffers and deliver nothing, the cap "
@@ -400,7 +400,7 @@ PROPS["C13"] = dict(
     tests=[
         dict(name="hostile", run="^TestHostileInputs$", quick=dict(shards=10, checks=500, timeout=600), thorough=dict(shards=10, checks=25000, timeout=3400)),
         dict(name="sweep", kind="plain", run="^TestSingleByteSweep$", quick=dict(shards=4, timeout=600), thorough=dict(shards=8, timeout=3400)),
-        dict(name="caps", run="^(TestOversizeDeclarations|TestConcurrentPushPullCap|TestHandoffQueueDepth|TestReplayFlood)$", quick=dict(shards=2, checks=150, timeout=600), thorough=dict(shards=4, checks=2000, timeout=3000)),
+        dict(name="caps", run="^(TestOversizeDeclarations|TestConcurrentPushPullCap|TestHandoffQueueDepth|TestReplayFlood|TestCutExchangesLeaveNothing)$", quick=dict(shards=2, checks=150, timeout=600), thorough=dict(shards=4, checks=2000, timeout=3000)),
         dict(name="bomb", kind="plain", run="^(TestDecompressionBomb|TestKnownMsgpackStreamAlloc)$", quick=dict(shards=1, timeout=600)),
         dict(name="seedcorpus", kind="plain", run="^Fuzz", quick=dict(shards=1, timeout=600)),
         dict(name="sock", run="^TestHostileSockets$", quick=dict(shards=2, checks=40, timeout=600), thorough=dict(shards=4, checks=1500, timeout=3400)),
@@ -565,14 +565,14 @@ PROPS["C09"] = dict(
           "are unchanged and Join returns an error with 0 successes; when Join reports success the joiner lists the host and every reported-alive row that "
           "passes its own filters; a dead/suspect row about a held member never removes it before the minimum suspicion timeout and a refutation keeps it; a held member may have been upgraded (re-announced with another version vector) before the exchange; every merge is followed by an honest exchange from a peer speaking the node's own versions, which must be admitted. "
           "mutuality: a real joiner and a real host with 0-4 members: at Join's return the joiner lists everything the host listed, and with the network "
-          "frozen the host lists the joiner once its handler finished. Refusal at the cap on concurrent exchanges (0-300 stalled inbound push/pulls): the cap holds, and once the stalled ones have timed out an honest exchange is served again. non-trivial = cut strictly inside the message / rejected non-empty list / hearsay / "
+          "frozen the host lists the joiner once its handler finished. Refusal at the cap on concurrent exchanges (0-300 stalled inbound push/pulls): the cap holds, and once the stalled ones have timed out an honest exchange is served again; likewise after 1-300 exchanges that were cut in the middle one after the other. non-trivial = cut strictly inside the message / rejected non-empty list / hearsay / "
           "successful join; distinct = distinct plans"),
     tests=[
         dict(name="aon", run="^TestAllOrNothing$", quick=dict(shards=12, checks=250, timeout=600), thorough=dict(shards=12, checks=8000, timeout=3400)),
         dict(name="mutual", run="^TestMutualJoin$", quick=dict(shards=3, checks=80, timeout=600), thorough=dict(shards=3, checks=2700, timeout=3000)),
         dict(name="race", run="^(TestAllOrNothing|TestMutualJoin)$", race=True, quick=dict(shards=1, checks=40, timeout=900), thorough=dict(shards=2, checks=1200, timeout=3000)),
         # exchanges refused at the concurrency cap must leave nothing behind either: once the pending ones are gone an honest exchange is served again
-        dict(name="cap", pkg="./props/c13", run="^TestConcurrentPushPullCap$", quick=dict(shards=1, checks=40, timeout=600), thorough=dict(shards=2, checks=600, timeout=3000)),
+        dict(name="cap", pkg="./props/c13", run="^(TestConcurrentPushPullCap|TestCutExchangesLeaveNothing)$", quick=dict(shards=1, checks=40, timeout=600), thorough=dict(shards=2, checks=600, timeout=3000)),
     ],
     required_labels=dict(both=["TestAllOrNothing/hearsay", "TestAllOrNothing/rejected:stream cut", "TestAllOrNothing/rejected:vetoed by the merge delegate",
                                "TestAllOrNothing/rejected:incompatible versions", "TestAllOrNothing/join-ok", "TestAllOrNothing/merged"]),
